@@ -131,3 +131,136 @@ def c13_table(d):
   return {"status": "refuted" if ok else "confirmed",
           "observed": {"class": rp["class"], "in_table": rp["class"] in table, "table_size": len(table)},
           "expected": "table[class name] is the class"}
+
+
+# ---------------------------------------------------------------------------------------------------------------- C20
+class _EnumHP(object):
+  """Tuner stub driven by a prescribed sequence of member indexes (exhaustive enumeration of the search space)."""
+
+  def __init__(self, script):
+    self.script, self.pos, self.calls, self.picked = list(script), 0, [], {}
+
+  def Choice(self, name, values, **k):  # pylint: disable=invalid-name
+    values = list(values)
+    i = self.script[self.pos] if self.pos < len(self.script) else 0
+    self.pos += 1
+    self.calls.append((name, values))
+    self.picked[name] = values[i % len(values)]
+    return self.picked[name]
+
+  def Fixed(self, name, value, **k):  # pylint: disable=invalid-name
+    self.picked[name] = value
+    return value
+
+
+def _c20_layers(kind):
+  def mk(cls, name, **attrs):
+    C = type(cls, (object,), {})
+    o = C()
+    o.name = name
+    w = attrs.pop("wshape", None)
+    for k, v in attrs.items():
+      setattr(o, k, v)
+    if w is not None:
+      import numpy as np
+      o.get_weights = lambda w=w: [np.zeros(w)]
+    return o
+  if kind == "seq":
+    return ([mk("LSTM", "lstm_1", use_bias=True, activation="tanh", wshape=(4, 8)),
+             mk("LSTM", "lstm_2", use_bias=True, activation="tanh", wshape=(4, 8))],
+            {"^lstm_1$": [1, 4, 1, 1], "^lstm_2$": [8, 8, 4, 6], "LSTM": [8, 8, 8, 8]})
+  return ([mk("SeparableConv2D", "sep_1", use_bias=False, activation="linear", filters=4, wshape=(3, 3, 2, 1)),
+           mk("SeparableConv2D", "sep_2", use_bias=False, activation="linear", filters=4, wshape=(3, 3, 2, 1))],
+          {"^sep_1$": [1, 4, 1], "^sep_2$": [8, 8, 6], "SeparableConv2D": [8, 8, 8]})
+
+
+_C20_CONFIG = {
+    "kernel": {"binary": 1, "quantized_bits(4,0,1)": 4, "quantized_bits(8,0,1)": 8},
+    "bias": {"quantized_bits(4,0,1)": 4, "quantized_bits(8,3,1)": 8},
+    "activation": {"binary": 1, "quantized_relu(6,2)": 6},
+    "linear": {"binary": 1, "quantized_bits(4,0,1)": 4},
+    "pointwise_kernel": {"binary": 1, "quantized_bits(4,0,1)": 4},
+    "recurrent_kernel": {"binary": 1, "quantized_bits(4,0,1)": 4},
+    "recurrent_activation": {"binary": 1, "quantized_relu(3,1)": 3},
+}
+
+
+@replayer("c20_qm")
+def c20_qm(d):
+  """The real AutoQKHyperModel.quantize_model on duck-typed layers (class names LSTM / SeparableConv2D), clone_model and
+  model_quantize replaced by the same contracts as on the symbolic side, every tuner outcome enumerated: the entry a
+  layer receives for a tensor must be the value _get_quantizer returned for THAT layer's head."""
+  import itertools
+  import re
+  from native import shims
+  shims.install_keras_tuner_stub()
+  import qkeras.autoqkeras.autoqkeras_internal as A
+  rep = (d.get("witness") or {}).get("__replay__") or {}
+  kind = rep.get("kind")
+  if kind not in ("seq", "sep") or d["clause"] != "own_choice":
+    return {"status": "unsupported", "detail": "only own_choice of the seq / sep scenarios is replayed natively"}
+  suffix = {"kernel_quantizer": "_kernel", "depthwise_quantizer": "_kernel", "bias_quantizer": "_bias",
+            "activation": "_activation", "recurrent_quantizer": "_recurrent_kernel",
+            "pointwise_quantizer": "_pointwise_kernel", "recurrent_activation": "_recurrent_activation"}
+  for script in itertools.product(range(3), repeat=4):
+    layers, limit = _c20_layers(kind)
+    model = type("Model", (object,), {})()
+    model.layers = layers
+    hm = A.AutoQKHyperModel.__new__(A.AutoQKHyperModel)
+    hm.limit, hm.groups, hm.quantization_config = limit, {}, _C20_CONFIG
+    hm.model, hm.custom_objects, hm.tune_filters = model, {}, "none"
+    hm.tune_filters_exceptions = re.compile("^$")
+    hm.layer_indexes, hm.activation_bits, hm.transfer_weights = None, 4, False
+    seen, own = {}, {}
+    real_gq = A.AutoQKHyperModel._get_quantizer
+
+    def gq(self, hp, head, layer_name, layer_class_name, *a, **k):
+      r = real_gq(self, hp, head, layer_name, layer_class_name, *a, **k)
+      own.setdefault((layer_name, head), r)
+      return r
+    old = (A.clone_model, A.model_quantize, A.AutoQKHyperModel._get_quantizer)
+    A.clone_model = lambda m, co=None: m
+    A.model_quantize = lambda m, qd, *a, **k: seen.setdefault("qd", qd)
+    A.AutoQKHyperModel._get_quantizer = gq
+    try:
+      hm.quantize_model(_EnumHP(script))
+    finally:
+      A.clone_model, A.model_quantize, A.AutoQKHyperModel._get_quantizer = old
+    for lname, ent in seen["qd"].items():
+      for key, val in ent.items():
+        mine = own.get((lname, lname + suffix[key]), (None,))[0]
+        if mine != val:
+          pat = [p for p in limit if re.match(p, lname)][0]
+          return {"status": "confirmed",
+                  "observed": {"layer": lname, "entry": key, "value_in_dictionary": val, "layer_own_choice": mine,
+                               "limit_of_layer": limit[pat], "tuner_choices": list(script)},
+                  "expected": "the quantizer chosen for this layer's own tensor"}
+  return {"status": "refuted", "observed": {"tuner_outcomes_tried": 81}}
+
+
+@replayer("c20_getq")
+def c20_getq(d):
+  """The real AutoQKHyperModel._get_quantizer for a recurrent / pointwise head under a class limit whose role entry is
+  the witness' limit_bits: every tuner outcome is enumerated and must respect the limit of the tensor's role."""
+  from native import shims
+  shims.install_keras_tuner_stub()
+  import qkeras.autoqkeras.autoqkeras_internal as A
+  w = d.get("witness") or {}
+  rep = w.get("__replay__") or {}
+  head, lcls, role, idx = rep["head"], rep["layer_class"], rep["role"], int(rep["index"])
+  lim = int(w.get("limit_bits", 2))
+  limit = {lcls: [8, 8, 8, 8] if lcls == "LSTM" else [8, 8, 8]}
+  limit[lcls][idx] = lim
+  bad = None
+  for i in range(4):
+    hm = A.AutoQKHyperModel.__new__(A.AutoQKHyperModel)
+    hm.limit, hm.groups, hm.quantization_config = {k: list(v) for k, v in limit.items()}, {}, _C20_CONFIG
+    hp = _EnumHP([i])
+    name, bits = hm._get_quantizer(hp, "layer_1" + head, "layer_1", lcls, is_kernel="kernel" in head)
+    if d["clause"] == "within_role_limit" and bits > lim:
+      bad = {"returned": name, "bits": bits, "limit_of_role": lim, "limit": limit}
+    if d["clause"] == "from_role_section" and name not in _C20_CONFIG[role]:
+      bad = {"returned": name, "section_of_role": sorted(_C20_CONFIG[role])}
+    if bad:
+      return {"status": "confirmed", "observed": bad, "expected": "clause %s" % d["clause"]}
+  return {"status": "refuted", "observed": {"outcomes_tried": 4}}
